@@ -85,6 +85,9 @@ BadResponse(b) == \/ BadAttrs(b.attrs)
 ClassicName(code, n) == IF AddrMode = "percode" THEN "p" \o ToString(code)
                         ELSE "c" \o ToString(code) \o "_" \o ToString(n)
 SaltedName(ck, creator, salt) == "s" \o ck \o "_" \o creator \o "_" \o salt
+(* instantiate2 accepts salts of 1..64 bytes only: "EMPTY" stands for the empty salt, "LONG" for one of 65 bytes
+   ("MAX", 64 bytes, is an ordinary salt) *)
+BadSalts == {"EMPTY", "LONG"}
 
 RECURSIVE CoinsStr(_)
 CoinsStr(coins) == IF coins = <<>> THEN ""
@@ -234,6 +237,7 @@ InstanceCount(st) == Cardinality(DOMAIN st.reg)
 
 Register(x, sender, m) ==
     IF m.code \notin DOMAIN x.codes THEN [ok |-> FALSE, x |-> x, c |-> ""]
+    ELSE IF m.salt \in BadSalts THEN [ok |-> FALSE, x |-> x, c |-> ""]
     ELSE LET c == IF m.salt = "" THEN ClassicName(m.code, InstanceCount(x.st))
                   ELSE SaltedName(x.codes[m.code].ck, sender, m.salt)
              info == [code |-> m.code, creator |-> sender, admin |-> m.admin, label |-> m.label]
